@@ -57,6 +57,8 @@ type MongoCollections struct {
 	Commands  int    // number of repository commands issued so far
 	FailAt    int    // 1-based index of the command the fault hits (0 = never)
 	FaultMode int    // FaultError / FaultDie
+	Dead      bool   // the server process is gone: nothing it still attempts reaches the database
+	Fired     string // name of the command the fault hit
 	Trace     []string
 }
 
@@ -80,12 +82,18 @@ func (its *MongoCollections) begin(ctx iface.OrdaContext, name string) (errors.O
 	its.Commands++
 	n := its.Commands
 	its.Trace = append(its.Trace, name)
+	if its.Dead {
+		return errors.ServerDBQuery.New(ctx.L(), "server process is gone"), func() {}
+	}
 	if n == its.FailAt && its.FaultMode == FaultError {
+		its.Fired = name
 		return errors.ServerDBQuery.New(ctx.L(), "injected failure of "+name), func() {}
 	}
 	return nil, func() {
 		if n == its.FailAt && its.FaultMode == FaultDie {
-			panic(ServerDied{n})
+			// crash-stop: this command took effect, nothing after it does
+			its.Fired = name
+			its.Dead = true
 		}
 	}
 }
